@@ -157,6 +157,28 @@ def _grid(ctx: Ctx) -> typing.Iterable[typing.Any]:
             m["version"] = [major, minor]
             m["statements"] = [_sealed()]
             yield {"skeleton": m, "edits": [], "grid": "version"}
+    # --- every directive (and the service marker) at every position of small message / service skeletons
+    directives = [{"s": "dir", "name": n, "expr": e} for n in ("union", "deprecated", "sealed", "print", "foo", "assert", "extent") for e in (None, ["bool", True], ["int", 8])]
+    directives += [{"s": "dir", "name": "extent", "expr": ["rel", 0]}, {"s": "dir", "name": "assert", "expr": ["bool", False]}, {"s": "marker"}]
+    fa = {"s": "field", "type": u8, "name": "a"}
+    fb = {"s": "field", "type": dict(u8, width=16), "name": "b"}
+    ka = {"s": "const", "type": u8, "name": "K", "value": ["int", 1]}
+    skeletons_ = [
+        [fa, fb, _sealed()],
+        [fa, fb],
+        [{"s": "dir", "name": "union", "expr": None}, fa, fb, _sealed()],
+        [{"s": "dir", "name": "deprecated", "expr": None}, fa, _sealed(), {"s": "marker"}, fb, _sealed()],
+        [fa, _sealed(), {"s": "marker"}, ka, fb],
+        [fa, _sealed(), {"s": "marker"}, fb, _sealed()],
+        [_sealed(), {"s": "marker"}, _sealed()],
+        [ka, fa, {"s": "dir", "name": "extent", "expr": ["rel", 8]}],
+    ]
+    for sk in skeletons_:
+        for dct in directives:
+            for pos in range(len(sk) + 1):
+                m = _base()
+                m["statements"] = [dict(x) for x in sk[:pos]] + [dict(dct)] + [dict(x) for x in sk[pos:]]
+                yield {"skeleton": m, "edits": [], "grid": "directive-placement"}
     # --- extents relative to the longest representation
     bodies = [[], [{"s": "field", "type": u8, "name": "a"}], [{"s": "field", "type": dict(u8, width=3), "name": "a"}],
               [{"s": "field", "type": dict(u8, array=["le", 3]), "name": "a"}, {"s": "field", "type": {"base": "dep", "dep": "DepV", "cast": None, "array": None}, "name": "b"}]]
